@@ -306,6 +306,9 @@ func (ts *Terms) Not(a *T) *T {
 
 // Cmp builds a comparison term; the evaluator decides it against the facts.
 func (ts *Terms) Cmp(op string, a, b *T) *T {
+	if a == nil || b == nil {
+		return nil // a comparison with an unresolved anchor: undecidable (Facts.Truth(nil) is unknown)
+	}
 	return ts.intern(&T{Op: "cmp", Aux: op, Args: []*T{a, b}, Typ: types.Typ[types.Bool]})
 }
 
